@@ -30,7 +30,7 @@ def vec_case(draw, ndim=(1, 4), nmin=1, nvdim=None, full_valid=False, bc_ok=True
     labels = vd or gen.default_vdims(k)
     perm = list(draw(st.permutations(range(nd))))
     single = [d for d in dims if len(d) == 1 and d.islower()]
-    bc = "".join(d for d in single if draw(st.booleans())) if (bc_ok and draw(st.integers(0, 2)) == 0) else ""
+    bc = "".join(d for d in single if draw(st.booleans())) if (bc_ok and draw(st.integers(0, 1)) == 0) else ""
     ncoef = 1 + nd + nd * (nd + 1) // 2
     return {"g": g, "k": k, "vdims": vd, "perm": perm, "bc": bc,
             "coef": [[draw(st.integers(-3, 3)) for _ in range(ncoef)] for _ in range(k)],
@@ -252,14 +252,26 @@ def check_identities(case):
 
 @st.composite
 def rot_case(draw):
-    c = draw(vec_case(ndim=(2, 4), full_valid=True, nmax=4))
+    """constructed, not filtered: the operator fits (nvdim, ndim) and the two rotated axes are both open or both
+    periodic (rotate90 documents that it does not move the bc string)"""
+    op = draw(st.sampled_from(["grad", "div", "curl", "laplace", "laplace"]))
+    ndim = 3 if op == "curl" else (2, 4)
+    c = draw(vec_case(ndim=ndim, full_valid=True, nmax=4))
     nd = len(c["g"]["n"])
+    dims = gen.dims_of(c["g"])
     a = draw(st.integers(0, nd - 1))
     b = draw(st.integers(0, nd - 1).filter(lambda x: x != a))
     c["ax"] = [a, b]
+    if (dims[a] in c["bc"]) != (dims[b] in c["bc"]):
+        if draw(st.booleans()):  # make both periodic, else both open
+            c["bc"] = "".join(d for d in dims if d in c["bc"] or d in (dims[a], dims[b]))
+            if any(len(d) != 1 for d in (dims[a], dims[b])):
+                c["bc"] = "".join(d for d in c["bc"] if d not in (dims[a], dims[b]))
+        else:
+            c["bc"] = "".join(d for d in c["bc"] if d not in (dims[a], dims[b]))
     c["kturn"] = draw(st.integers(1, 3))
-    c["op"] = draw(st.sampled_from(["grad", "div", "curl", "laplace"]))
-    if draw(st.booleans()):
+    c["op"] = op
+    if op == "grad" or (op == "laplace" and draw(st.booleans())):
         c["k"] = 1
         c["coef"] = c["coef"][:1]
         c["labels"] = None
